@@ -214,6 +214,13 @@ def gen_label_text(rng):
     items = []
     lab = rng.choice([0, 0, 1, 7, 15])
     labs = []
+    if rng.random() < 0.3:
+        # a first label just below the initial table size (24) followed by the largest jumps around the reader's tolerance
+        l0 = rng.randrange(12, 24)
+        l1 = l0 + rng.randrange(15, 36)
+        l2 = l1 + rng.randrange(15, 36)
+        refs = [rng.choice([l0, l1, l2, l1 + 1, 47, 48, 95, 96])]
+        return "(#%d=a #%d=(b) #%d=c #%d# #%d#)" % (l0, l1, l2, refs[0], l0)
     for _ in range(rng.choice([1, 2, 3, 5, 8])):
         labs.append(lab)
         items.append("#%d=%s" % (lab, rng.choice(["a", "(b)", "\"s\"", "#(1 2)", "(x . y)"])))
